@@ -145,6 +145,7 @@ PROPS["C02"] = dict(
         R("C02.session_concurrent_send", "ke", "TestC02SessionConcurrentSend", 60, 3000),
         R("C02.channel_rotation", "kechan", "TestC02ChannelRotation", 16, 600, shrink=5, quick=dict(checks=16, shards=4, timeout=600)),
         R("C02.concurrent_send", "kechan", "TestC02ConcurrentSend", 40, 1500, shrink=5, quick=dict(checks=40, shards=2, timeout=600)),
+        R("C02.swarm_burst", "swarms", "TestC02SwarmBurst", 120, 6000, quick=dict(shards=2, timeout=600)),
     ],
 )
 
@@ -212,6 +213,7 @@ PROPS["C15"] = dict(
     subs=[
         R("C15.framing", "swarms", "TestC15Framing", 3000, 200000),
         R("C15.isolation", "swarms", "TestC15Isolation", 300, 15000, quick=dict(checks=300, shards=2, timeout=600)),
+        R("C15.concurrent_senders", "swarms", "TestC15Concurrent", 150, 8000),
     ],
 )
 
@@ -289,6 +291,7 @@ PROPS["C13"] = dict(
         R("C13.tellhub_histories", "hubs", "TestC13TellHub", 600, 60000),
         R("C13.askhub_histories", "hubs", "TestC13AskHub", 600, 60000),
         R("C13.queue_histories", "hubs", "TestC13Queue", 400, 40000),
+        R("C13.queue_stampede", "hubs", "TestC13QueueStampede", 100, 6000),
         R("C13.swarm_cancel", "hubs", "TestC13SwarmCancel", 120, 6000, quick=dict(checks=120, shards=4, timeout=600)),
     ],
 )
@@ -304,6 +307,7 @@ PROPS["C14"] = dict(
         R("C14.contention_workloads", "swarms", "TestC14Stress", 48, 1200, race=True, shrink=5, quick=dict(checks=48, shards=6, timeout=900)),
         R("C14.channel_close_during_callback", "swarms", "TestC14ChannelClose", 24, 800, race=True, shrink=5, quick=dict(checks=24, shards=4, timeout=900)),
         R("C14.kademlia_concurrent", "kad", "TestC14Cache", 10, 300, race=True, shrink=5),
+        R("C14.recycled_buffer_exposure", "swarms", "TestC14BufferReuse", 150, 8000),
     ],
 )
 
@@ -319,5 +323,6 @@ PROPS["C04"] = dict(
         R("C04.p2pke_claimed_key_adversary", "secure", "TestC04P2PKEForger", 300, 15000, shrink=10, quick=dict(checks=300, shards=2, timeout=600)),
         R("C04.ssh_auth_step_adversary", "secure", "TestC04SSHAdversary", 60, 3000, shrink=10, quick=dict(checks=60, shards=2, timeout=600)),
         R("C04.address_takeover", "secure", "TestC04AddressTakeover", 36, 1500, quick=dict(shards=3, timeout=600)),
+        R("C04.quic_certificate_chain_adversary", "secure", "TestC04QuicCertChain", 200, 10000, quick=dict(shards=2, timeout=600)),
     ],
 )
